@@ -24,6 +24,7 @@ Record rstate := {
   ticklog : list tick ;
   outcome : outcome_t ;
   clock : Z ;
+  tlog : list (tick * Z) ;     (* ghost: every processed tick with the clock reading passed to the reducer *)
   idlelog : list (bool * nat)   (* ghost: at each WorkflowIdleEvent publication: (a delayed retry is scheduled, #ticks delivered to the mailbox and not yet pulled) *)
 }.
 
@@ -38,7 +39,7 @@ Fixpoint insert_wakeup (w : Z * Z * tick) (l : list (Z * Z * tick)) :=
 Definition upd (r : rstate) st' tbuf' wk' wseq' ip' pend' pubs' out' : rstate :=
   {| st := st' ; tbuf := tbuf' ; wakeups := wk' ; wseq := wseq' ; idle_pending := ip' ;
      mailbox := mailbox r ; pending := pend' ; runningw := runningw r ; donew := donew r ;
-     published := pubs' ; ticklog := ticklog r ; outcome := out' ; clock := clock r ; idlelog := idlelog r |}.
+     published := pubs' ; ticklog := ticklog r ; outcome := out' ; clock := clock r ; tlog := tlog r ; idlelog := idlelog r |}.
 
 (* process_command *)
 Definition do_command (r : rstate) (c : command) : rstate :=
@@ -71,7 +72,8 @@ Definition do_command (r : rstate) (c : command) : rstate :=
 Definition log_tick (r : rstate) (t : tick) : rstate :=
   {| st := st r ; tbuf := tbuf r ; wakeups := wakeups r ; wseq := wseq r ; idle_pending := idle_pending r ;
      mailbox := mailbox r ; pending := pending r ; runningw := runningw r ; donew := donew r ;
-     published := published r ; ticklog := ticklog r ++ [t] ; outcome := outcome r ; clock := clock r ; idlelog := idlelog r |}.
+     published := published r ; ticklog := ticklog r ++ [t] ; outcome := outcome r ; clock := clock r ;
+     tlog := tlog r ++ [(t, clock r)] ; idlelog := idlelog r |}.
 
 Definition publishes_idle (cs : list command) : bool :=
   existsb (fun c => match c with CPublish PIdle => true | _ => false end) cs.
@@ -83,6 +85,7 @@ Definition log_idle (r : rstate) (cs : list command) : rstate :=
     {| st := st r ; tbuf := tbuf r ; wakeups := wakeups r ; wseq := wseq r ; idle_pending := idle_pending r ;
        mailbox := mailbox r ; pending := pending r ; runningw := runningw r ; donew := donew r ;
        published := published r ; ticklog := ticklog r ; outcome := outcome r ; clock := clock r ;
+       tlog := tlog r ;
        idlelog := idlelog r ++ [(has_retry_wakeup (wakeups r), length (mailbox r))] |}
   else r.
 
@@ -115,7 +118,7 @@ Fixpoint drain_ticks (P : policy) (r : rstate) (fuel : nat) : rstate :=
 Definition set_wait (r : rstate) tbuf' wk' mb' run' done' : rstate :=
   {| st := st r ; tbuf := tbuf' ; wakeups := wk' ; wseq := wseq r ; idle_pending := idle_pending r ;
      mailbox := mb' ; pending := [] ; runningw := run' ; donew := done' ;
-     published := published r ; ticklog := ticklog r ; outcome := outcome r ; clock := clock r ; idlelog := idlelog r |}.
+     published := published r ; ticklog := ticklog r ; outcome := outcome r ; clock := clock r ; tlog := tlog r ; idlelog := idlelog r |}.
 
 Fixpoint due (now : Z) (l : list (Z * Z * tick)) : list tick * list (Z * Z * tick) :=
   match l with
@@ -193,17 +196,17 @@ Definition act (P : policy) (r : rstate) (a : action) : rstate :=
           {| st := st r ; tbuf := tbuf r ; wakeups := wakeups r ; wseq := wseq r ; idle_pending := idle_pending r ;
              mailbox := mailbox r ++ sends ; pending := pending r ; runningw := run' ;
              donew := donew r ++ [(s, w, e, rs)] ; published := published r ; ticklog := ticklog r ;
-             outcome := outcome r ; clock := clock r ; idlelog := idlelog r |}
+             outcome := outcome r ; clock := clock r ; tlog := tlog r ; idlelog := idlelog r |}
         | None => r
         end
       | ADeliver t =>
           {| st := st r ; tbuf := tbuf r ; wakeups := wakeups r ; wseq := wseq r ; idle_pending := idle_pending r ;
              mailbox := mailbox r ++ [t] ; pending := pending r ; runningw := runningw r ; donew := donew r ;
-             published := published r ; ticklog := ticklog r ; outcome := outcome r ; clock := clock r ; idlelog := idlelog r |}
+             published := published r ; ticklog := ticklog r ; outcome := outcome r ; clock := clock r ; tlog := tlog r ; idlelog := idlelog r |}
       | AAdvance dt =>
           {| st := st r ; tbuf := tbuf r ; wakeups := wakeups r ; wseq := wseq r ; idle_pending := idle_pending r ;
              mailbox := mailbox r ; pending := pending r ; runningw := runningw r ; donew := donew r ;
-             published := published r ; ticklog := ticklog r ; outcome := outcome r ; clock := clock r + dt ; idlelog := idlelog r |}
+             published := published r ; ticklog := ticklog r ; outcome := outcome r ; clock := clock r + dt ; tlog := tlog r ; idlelog := idlelog r |}
       end in
     run_until_blocked P r' loop_fuel
   | _ => r
@@ -212,6 +215,6 @@ Definition act (P : policy) (r : rstate) (a : action) : rstate :=
 Definition start (s : state) (e : event) (now : Z) : rstate :=
   {| st := s ; tbuf := [TAdd (blank e) None] ; wakeups := [] ; wseq := 0 ; idle_pending := false ;
      mailbox := [] ; pending := [] ; runningw := [] ; donew := [] ; published := [] ; ticklog := [] ;
-     outcome := ORunning ; clock := now ; idlelog := [] |}.
+     outcome := ORunning ; clock := now ; tlog := [] ; idlelog := [] |}.
 Definition run (P : policy) (s : state) (e : event) (acts : list action) : rstate :=
   fold_left (act P) acts (run_until_blocked P (start s e 100) loop_fuel).
